@@ -39,6 +39,7 @@ func MetaSection(t *rapid.T) ([]byte, MetaExpect) {
 		}
 	}
 	label := func(l string) { exp.Labels = append(exp.Labels, l) }
+	lengthOffOnly := 0 // the only defect so far: an earlier chunk's length is off by this much
 
 	// which chunks, in which order
 	order := rapid.SampledFrom([]string{"", "V", "P", "VP", "VP", "VP", "PV", "VV", "PP", "U", "VU", "UV", "VPU", "B"}).Draw(t, "meta.order")
@@ -167,13 +168,32 @@ func MetaSection(t *rapid.T) ([]byte, MetaExpect) {
 		declared := len(body)
 		lenMode := rapid.IntRange(0, 11).Draw(t, "len.mode")
 		if !exp.Valid {
-			lenMode = 11 // one defect per section: two can cancel out
+			// one defect per section: two can cancel out. The exception: a wrong length on an
+			// earlier chunk cannot be made good by a later chunk, whose own extent is fixed by
+			// its content, so a second wrong length (often the opposite amount) is allowed.
+			if lengthOffOnly != 0 && lenMode < 6 {
+				lenMode = 12
+			} else {
+				lenMode = 11
+			}
 		}
 		switch lenMode {
+		case 12:
+			d := rapid.SampledFrom([]int{-lengthOffOnly, -lengthOffOnly, -1, 1, 2}).Draw(t, "len.delta2")
+			if declared+d >= 0 {
+				declared += d
+				label("length-off-on-two-chunks")
+				if d == -lengthOffOnly {
+					label("length-errors-sum-to-zero")
+				}
+			}
 		case 0:
 			d := rapid.SampledFrom([]int{-3, -2, -1, 1, 2, 3}).Draw(t, "len.delta")
 			if declared+d >= 0 {
 				declared += d
+				if exp.Valid {
+					lengthOffOnly = d
+				}
 				bad("chunk length disagrees with content")
 				label("length-off")
 			}
